@@ -5,3 +5,4 @@ import SmppVerif.Props.C17
 import SmppVerif.Props.C20
 import SmppVerif.Props.C08
 import SmppVerif.Props.C18
+import SmppVerif.Props.C09
